@@ -24,7 +24,7 @@ func deadlockTest() {
 	if len(os.Args) > 3 {
 		fmt.Sscan(os.Args[3], &gmp)
 	}
-	dec := uint64(300000)
+	dec := uint64(30000)
 	t := boot(reg, 0)
 	d := sha1.Sum([]byte("dup"))
 	for i := 0; i < nd; i++ {
@@ -37,7 +37,7 @@ func deadlockTest() {
 	target := append([]byte(nil), t2.PCRValues[0][tpm2.AlgSHA1]...)
 	runtime.GOMAXPROCS(gmp)
 	s := pcrbruteforcer.DefaultSettingsReproducePCR0()
-	s.MaxACMPolicyLinearDistance = 2000000
+	s.MaxACMPolicyLinearDistance = 100000
 	done := make(chan struct{})
 	t0 := time.Now()
 	go func() {
@@ -49,6 +49,9 @@ func deadlockTest() {
 	case <-done:
 	case <-time.After(60 * time.Second):
 		fmt.Println("HANG: no answer after 60s; goroutines:", runtime.NumGoroutine())
+		buf := make([]byte, 1<<16)
+		n := runtime.Stack(buf, true)
+		os.Stdout.Write(buf[:n])
 	}
 	_ = tpm.NewTPM
 }
